@@ -168,6 +168,50 @@ def thriftSkipListIterations (bs : List Nat) : Except Err Nat :=
   | .error e => .error e
   | .ok (li, _) => .ok li.size
 
+
+/-- `skip_vlq`: bytes are consumed until one without the continuation bit; no length limit -/
+def thriftSkipVlq : List Nat → Except Err (List Nat)
+  | [] => .error .eof
+  | b :: bs => if b < THRIFT_VLQ_CONT then .ok bs else thriftSkipVlq bs
+
+/-- `ThriftSliceInputProtocol::skip_bytes(n)` -/
+def thriftSkipBytes (n : Nat) (bs : List Nat) : Except Err (List Nat) :=
+  if bs.length < n then .error .eof else .ok (bs.drop n)
+
+/-- `skip_till_depth` for the field types that carry no nested data (bool, byte, i16/i32/i64,
+double, binary, uuid); `none` = a container type, not modelled here -/
+def thriftSkipScalar (ty : Nat) (bs : List Nat) : Option (Except Err (List Nat)) :=
+  if ty = 1 ∨ ty = 2 then some (.ok bs)
+  else if ty = 3 then some (thriftSkipBytes 1 bs)                 -- read_i8
+  else if ty = 4 ∨ ty = 5 ∨ ty = 6 then some (thriftSkipVlq bs)
+  else if ty = 7 then some (thriftSkipBytes 8 bs)
+  else if ty = 8 then
+    some (match thriftReadVlq bs with
+      | .error e => .error e
+      | .ok (len, rest) => thriftSkipBytes len rest)              -- skip_binary: read_vlq()? as usize
+  else if ty = 13 then some (thriftSkipBytes 16 bs)
+  else none
+
+/-- the field loop of a struct reader that skips every field (`read_field_begin(last_field_id)`,
+`skip`, `last_field_id = id`) until the stop byte.  `fuel` = number of bytes: every field
+header consumes one (see `thrift_field_begin_progress`).  Returns the ids seen, or `none`
+when a container type is met. -/
+def thriftSkipFields : Nat → Int → List Nat → Option (Except Err (List Int × List Nat))
+  | 0, _, _ => some (.error .eof)
+  | fuel + 1, lastId, bs =>
+    match thriftReadFieldBegin lastId bs with
+    | .error e => some (.error e)
+    | .ok (ty, id, rest) =>
+      if ty = THRIFT_FIELD_STOP then some (.ok ([], rest))
+      else match thriftSkipScalar ty rest with
+        | none => none
+        | some (.error e) => some (.error e)
+        | some (.ok rest') =>
+          match thriftSkipFields fuel id rest' with
+          | none => none
+          | some (.error e) => some (.error e)
+          | some (.ok (ids, r)) => some (.ok (id :: ids, r))
+
 /-! ## Avro varints (`arrow-avro/src/reader/vlq.rs`) -/
 
 /-- `read_varint_array`, the loop over the first nine bytes and the tenth byte.
@@ -310,9 +354,9 @@ def deltaHeader (buf : List Nat) : Except Err (Nat × Nat × Nat × Int) :=
         match next r3 with
         | .error e => .error e
         | .ok (fv, _) =>
-          if bsz % 128 ≠ 0 then .error .malformed
+          if bsz % SHAPE_DELTA_BLOCK_MULTIPLE ≠ 0 then .error .malformed
           else if bsz % mb ≠ 0 then .error .malformed
-          else if (bsz / mb) % 32 ≠ 0 then .error .malformed
+          else if (bsz / mb) % SHAPE_DELTA_MINIBLOCK_MULTIPLE ≠ 0 then .error .malformed
           else .ok (bsz, mb, vl, zigzagInt fv)
 
 /-! ## Arrow IPC buffer slicing (`arrow-ipc/src/reader.rs::read_buffer`) -/
